@@ -83,7 +83,8 @@ def run(ctx):
             ctx.known_finding(C.known_match(known, key))
         else:
             ctx.violation({"kind": "property-fails-on-implementation", "crystal": c["crystal"], "sg": c["sg"], "failed_clauses": bad, "tol": c.get("tol", 1e-3),
-                           "presentation": c["pres"], "key": key, "broken_obligation": broken,
+                           "presentation": c["pres"], "key": key, "broken_obligation": broken, "getters_called_first": r.get("getters_called_first"),
+                           "getters_meaning": "public get_* methods of the SymmetryAnalyzer called (in this order) before the examined calls; null = none",
                            "call": "SymmetryAnalyzer(crystal, symmetry_tol=tol).get_conventional_system()"}, found_input=True)
     bad_reuse = [r for r in reuse_rows if "error" in r or not r.get("same")]
     ctx.coverage["analyzer_reuse"] = {"sequences_checked": len(reuse_rows), "differences": bad_reuse[:5]}
@@ -110,7 +111,7 @@ def replay(ctx, rep):
     if "crystal" not in rep:
         print("replay: nothing to re-run")
         return
-    rows = H.run_impl([dict({"id": 0, "crystal": rep["crystal"]}, **({"tol": rep["tol"]} if rep.get("tol") else {}))], jobs=1)
+    rows = H.run_impl([dict({"id": 0, "crystal": rep["crystal"], "getters": rep.get("getters_called_first") or []}, **({"tol": rep["tol"]} if rep.get("tol") else {}))], jobs=1)
     r = rows[0]
     if "error" in r or H.c05_predicate(r):
         ctx.violation(rep, found_input=True)
